@@ -46,6 +46,9 @@ for c in spec['calls']:
             f = getattr(f, p)
         if c.get('py_func') and hasattr(f, 'py_func'):
             f = f.py_func
+        if c.get('get_attr'):
+            out.append({'ok': True, 'value': enc(f)})
+            continue
         if 'init_args' in c:
             obj = f(*dec(c['init_args']), **dec(c.get('init_kwargs', {})))
             f = getattr(obj, c.get('method', '__call__'))
